@@ -65,6 +65,7 @@ type Result struct {
 	Counters    map[string]int64 `json:"counters,omitempty"`
 	SimNanos    int64            `json:"sim_nanos,omitempty"`
 	States      []uint64         `json:"-"` // abstract state hashes seen
+	FPs         []uint64         `json:"-"` // fingerprints of the distinct non-trivial sub-cases of this run (crash images, fault placements)
 	// PreemptSteps is filled by scheduled runs so the shrinker can switch the
 	// case to an explicit preemption list.
 	PreemptSteps []int64 `json:"-"`
